@@ -82,6 +82,9 @@ func c17FaultKinds(nFrames int, big bool) []string {
 	if nFrames > 0 {
 		k = append(k, "trunc:last-byte")
 	}
+	if nFrames >= 2 { // intact, hash-valid frames in the wrong place (only the stripe index tells)
+		k = append(k, "reorder:swap-first-two-frames", "reorder:drop-first-frame", "reorder:duplicate-first-frame")
+	}
 	return k
 }
 
@@ -192,8 +195,8 @@ func (c *c17ctx) applyFault(i int, kind string) (out []byte, present bool, ok bo
 		return xor(f.Off+13, 0x01) // +-64 KiB
 	case "flip:frame-payloadlen:16m":
 		return xor(f.Off+12, 0x01) // +16 MiB allocation
-	case "flip:frame-payloadlen:huge":
-		return xor(f.Off+12, 0xff) // ~4 GiB
+	case "flip:frame-payloadlen:256m":
+		return xor(f.Off+12, 0x10) // 256 MiB allocation (gigabyte-sized values take minutes to page in in this sandbox)
 	case "flip:frame-hash:first":
 		return xor(f.Off+16, 0x01)
 	case "flip:frame-hash:last":
@@ -204,6 +207,19 @@ func (c *c17ctx) applyFault(i int, kind string) (out []byte, present bool, ok bo
 		return xor(f.payloadOff()+f.PayloadLen/2, 0x10)
 	case "flip:payload:last":
 		return xor(f.payloadOff()+f.PayloadLen-1, 0x80)
+	case "reorder:swap-first-two-frames", "reorder:drop-first-frame", "reorder:duplicate-first-frame":
+		if len(sh.Frames) < 2 {
+			return nil, true, false
+		}
+		f0, f1 := sh.Frames[0], sh.Frames[1]
+		b := append([]byte{}, o[:f0.Off]...)
+		switch name {
+		case "reorder:swap-first-two-frames":
+			b = append(append(b, o[f1.Off:f1.end()]...), o[f0.Off:f0.end()]...)
+		case "reorder:duplicate-first-frame":
+			b = append(append(b, o[f0.Off:f0.end()]...), o[f0.Off:f0.end()]...)
+		}
+		return append(b, o[f1.end():]...), true, true
 	case "foreign":
 		return repl(c.forgn[i])
 	case "stale-same-size":
@@ -522,10 +538,10 @@ func c17Cases(sp c17Spec, tier string, seed uint64, nFrames int) []c17Case {
 			add("mixture", fs)
 		}
 	}
-	if tier == "thorough" && sp.Size == sp.D*ecStripe+1 { // gigabyte-sized payloadLen, one shard at a time (one size per configuration: slow)
+	if tier == "thorough" && sp.Size == sp.D*ecStripe+1 { // 256 MiB payloadLen, one shard at a time (one size per configuration: slow)
 		for f := 0; f < nFrames && f < 1; f++ {
 			for s := 0; s < total; s++ {
-				add("huge-length", []c17Fault{{s, fmt.Sprintf("flip:frame-payloadlen:huge@%d", f)}})
+				add("huge-length", []c17Fault{{s, fmt.Sprintf("flip:frame-payloadlen:256m@%d", f)}})
 			}
 		}
 	}
@@ -645,7 +661,7 @@ func c17OnCrash(pr *parentRec, name string, last *line, info string) {
 func runC17(tier, replay string) {
 	r := vkit.Begin("C17", "fault_enumeration", tier)
 	pr := newParentRec(r)
-	r.SetRule("case = (data+parity, part size, {shard -> fault variant}, read mode). ALL subsets of shards of size <= parity+1 are enumerated; single-shard subsets get every fault variant; larger subsets get every variant applied to all members, every variant on one member with the others missing, and PRNG mixtures. Fault variants: missing, truncation (0 bytes, mid shard header, at / inside the header of / inside the payload of the first, middle and last frame, last byte), one flipped byte in every shard-header field, in every frame-header field (stripe index, dataBytes, payloadLen, hash) and in the payload, foreign shard (same index of another part of equal size), stale shard (same index of a previous PutPart of the same id, equal and different size). distinct = distinct (config,size,assignment,read mode)")
+	r.SetRule("case = (data+parity, part size, {shard -> fault variant}, read mode). ALL subsets of shards of size <= parity+1 are enumerated; single-shard subsets get every fault variant; larger subsets get every variant applied to all members, every variant on one member with the others missing, and PRNG mixtures. Fault variants: missing, frames reordered / dropped / duplicated, truncation (0 bytes, mid shard header, at / inside the header of / inside the payload of the first, middle and last frame, last byte), one flipped byte in every shard-header field, in every frame-header field (stripe index, dataBytes, payloadLen, hash) and in the payload, foreign shard (same index of another part of equal size), stale shard (same index of a previous PutPart of the same id, equal and different size). distinct = distinct (config,size,assignment,read mode)")
 	r.Assume("shard files are produced by real PutPart calls and mutated in the raw filesystem directories; the harness parses them with its own reading of the documented layout and refuses to run (inconclusive) if that does not match")
 	r.Assume("'healing restores the missing shards' is required for faults of kind 'missing' (checked by a second read without parity-many other shards); whether truncated / corrupt / stale shards are rewritten by a read is recorded per fault kind as an observation")
 	r.Assume("stripe size 1024; shard stores are filesystem stores; reads alternate between nil-transaction and read-only-transaction mode")
